@@ -212,6 +212,19 @@ variable {κ : Type}
 /-- `FeaturesByID.Merge` for every file in turn -/
 def mergeBlocks (fs : List (File α β κ)) : List (Block α β) := fs.flatMap (·.blocks)
 
+/-- some file holds both features -/
+def sameFile (fs : List (File α β κ)) (x id : ID) : Bool :=
+  fs.any fun f => (find f.blocks x).isSome && (find f.blocks id).isSome
+
+/-- The input class of finding `cross-file-referrer`. A file records, with a feature, only the relations of
+the *same file* that list it (`Summary.RelationMembers` → `Path.Relations`, `Area.Relations`, `FullPoint.Relations`;
+`fillRelationsFromPoint` ignores references-only entries), so `FindRelationsByFeature` / `FindReferences` on a merged
+world miss referrers that live in other files. `m` is the merged world's answer, `u` the answer of the one-file
+build of the union: the class holds when the merged answer only *lacks* referrers, and every referrer it lacks
+shares no file with the feature asked about. -/
+def crossFileOnly (fs : List (File α β κ)) (id : ID) (m u : List ID) : Bool :=
+  m.all (u.contains ·) && (u.filter (fun x => !m.contains x)).all (fun x => !sameFile fs x id)
+
 /-! ## `b6.MergeFeatures` -/
 
 /-- least current id among the live streams (the heap top) -/
